@@ -42,7 +42,7 @@ def after (k : α) (l : List α) : List α := l.filter fun x => cmp x k != .lt
 def stopped (stop : Option Nat) (l : List α) : List α :=
   match stop with
   | none => l
-  | some j => l.take (Nat.max j 1)
+  | some j => l.take (Max.max j 1)
 
 /-- strictly ascending -/
 def Asc (l : List α) : Prop := l.Pairwise fun a b => cmp a b = .lt
@@ -62,7 +62,7 @@ structure S (α : Type) where
   peak : Nat := 0
 
 def S.put (s : S α) (keys : List α) : S α :=
-  { s with keys := keys, peak := if keys.length = 0 then 0 else Nat.max s.peak keys.length }
+  { s with keys := keys, peak := if keys.length = 0 then 0 else Max.max s.peak keys.length }
 
 open MdsVerif.Model.Stree (Op Out Regs)
 
